@@ -10,7 +10,8 @@ import sympy as sp
 from vcheck import cfront, csymx, rules
 from vcheck.core import PyRepo, AnalysisError, call_name, const_value, kwarg, norm, walk_no_nested
 from vcheck.cfront import callee_name, render, strip, walk
-from checks.C12 import guard_facts, array_read, node_defs, ref_desc, ref_desc_in, cfg_succ, _norm_f8, _size_checks, per_point_values_rule, LowerH, unstrided_reads, f8_atoms
+from checks.C12 import guard_facts, array_read, node_defs, ref_desc, ref_desc_in, cfg_succ, _norm_f8, _size_checks, per_point_values_rule, LowerH, unstrided_reads, f8_atoms, \
+    pointer_aliases, size_check_verdict
 
 MANIFEST = dict(
     text="Narrow structural claim over the clang AST of htmc.cc and the Python ast of htm.py (the geometric clauses are NOT decided): "
@@ -80,6 +81,10 @@ class Fn:
         self.RIN, _ = self.view.reaching_defs()
         self.params = cfront.params_of(decl)
         self.where = "%s:%s" % (SRC, decl.get("line", decl.get("loc", {}).get("line", "?")))
+        self.alias = pointer_aliases(decl)      # locals that are (cast) copies of a parameter / member, e.g. hoisted PyArrayObject* casts
+
+    def aread(self, expr):
+        return array_read(expr, self.alias)
 
     def defs_at(self, n, var):
         out = []
@@ -118,22 +123,14 @@ def lookup(chk, repo, fs):
     ivar = render(loops[0].c["inner"][0]) if ok else None
     bound = render(loops[0].c["inner"][1]) if ok else None
     bd = f.defs_at(loops[0], bound) if ok else []
-    ok = ok and len(bd) == 1 and ref_desc_in(bd[0][1]) == ("param", p_ra)
+    ok = ok and len(bd) == 1 and ref_desc_in(bd[0][1], f.alias) == ("param", p_ra)
     inits = [render(r) for d, r in f.defs_at(loops[0], ivar) if d.label != "inc"] if ok else []
     chk.ob("R13.1", "lookup_id::all-elements", ok and inits == ["0"], f.where, "one loop i = 0 .. size(ra)-1")
     ptr = {}
-    alias = {}
     for n in f.cfg.nodes:
         for v, rhs in node_defs(n):
-            rd = ref_desc(rhs)
-            if rd[0] == "param":
-                alias[v] = rd          # a local that is just a (cast) copy of a parameter
-    for n in f.cfg.nodes:
-        for v, rhs in node_defs(n):
-            ar = array_read(rhs)
+            ar = f.aread(rhs)
             if ar:
-                if ar[0][0] == "local" and ar[0][1] in alias:
-                    ar = (alias[ar[0][1]], ar[1])
                 ptr[v] = ar
     calls = [(n, x) for n in f.cfg.nodes if isinstance(n.c, dict) for x in walk(n.c) if x.get("kind") == "CXXMemberCallExpr" and callee_name(x) == "lookupID"]
     ok = len(calls) == 1
@@ -166,15 +163,113 @@ def lookup(chk, repo, fs):
     stride_rule(chk, "R13.1", "lookup_id", f, fi, {p_ra: "ra", p_dec: "dec"})
     for n, ok in _norm_f8(fi, ["ra", "dec"]).items():
         chk.ob("R13.1", "HTM.lookup_id::%s-becomes-fresh-float64-1d" % n, ok, fi.where(), "scalars and arrays take the same path: `%s = np.atleast_1d(%s).astype('f8')`" % (n, n))
-    chk.ob("R13.1", "HTM.lookup_id::size-check", "ra.size != dec.size" in _size_checks(fi), fi.where(), "unequal coordinate arrays are rejected")
-    alloc = [x for x in walk_no_nested(fi.node) if isinstance(x, ast.Assign) and isinstance(x.value, ast.Call) and call_name(x.value) in ("zeros", "empty")]
-    ok = len(alloc) == 1 and norm(alloc[0].value.args[0]) == "ra.size" and const_value(kwarg(alloc[0].value, "dtype")) in ("i8", "int64")
-    outn = norm(alloc[0].targets[0]) if alloc else None
-    call = [c for c in walk_no_nested(fi.node) if isinstance(c, ast.Call) and call_name(c) == "lookup_id"]
-    ok = ok and len(call) == 1 and [norm(a) for a in call[0].args] == ["ra", "dec", outn]
-    rets = [x for x in walk_no_nested(fi.node) if isinstance(x, ast.Return)]
-    ok = ok and len(rets) == 1 and norm(rets[0].value) == outn
-    chk.ob("R13.1", "HTM.lookup_id::output-int64-same-size", bool(ok), fi.where(), "the output is a new int64 array of ra.size handed to the extension as (ra, dec, out) and returned")
+    oksz, rcsz = size_check_verdict(fi, "ra.size != dec.size")
+    chk.ob("R13.1", "HTM.lookup_id::size-check", oksz, fi.where(), "unequal coordinate arrays are rejected (raises when: %s)" % rcsz)
+    ok, note = lookup_output_rule(fi, oksz is True)
+    chk.ob("R13.1", "HTM.lookup_id::output-int64-same-size", ok, fi.where(),
+           "the output is a new int64 array of ra.size handed to the extension as (ra, dec, out) and returned%s" % note)
+
+
+def _emptiness(test, lab, names):
+    """True if the outcome `lab` of the test says that <name>.size is 0 for one of the names (`ra.size == 0`, `not ra.size`, `ra.size < 1`,
+    `len(ra) == 0` taken; `ra.size`, `ra.size != 0`, `ra.size > 0`, `ra.size >= 1` not taken)"""
+    def is_size(e):
+        if isinstance(e, ast.Attribute) and e.attr == "size" and isinstance(e.value, ast.Name) and e.value.id in names:
+            return True
+        return isinstance(e, ast.Call) and call_name(e) == "len" and len(e.args) == 1 and isinstance(e.args[0], ast.Name) and e.args[0].id in names
+    pos = lab == "T"
+    while isinstance(test, ast.UnaryOp) and isinstance(test.op, ast.Not):
+        test, pos = test.operand, not pos
+    if is_size(test):
+        return not pos
+    if isinstance(test, ast.Compare) and len(test.ops) == 1:
+        l, op, r = test.left, test.ops[0], test.comparators[0]
+        flip = {ast.Lt: ast.Gt, ast.Gt: ast.Lt, ast.LtE: ast.GtE, ast.GtE: ast.LtE}
+        if is_size(r) and not is_size(l):
+            l, r = r, l
+            op = flip.get(type(op), type(op))()
+        if is_size(l) and isinstance(r, ast.Constant) and isinstance(r.value, int) and not isinstance(r.value, bool):
+            c = r.value
+            empty_when_true = {ast.Eq: c == 0, ast.Lt: c == 1, ast.LtE: c == 0}.get(type(op), False)
+            empty_when_false = {ast.NotEq: c == 0, ast.Gt: c == 0, ast.GtE: c == 1}.get(type(op), False)
+            return empty_when_true if pos else empty_when_false
+    return False
+
+
+def lookup_output_rule(fi, size_checked=False):
+    """every value HTM.lookup_id returns is a new int64 array of ra.size elements (np.zeros / np.empty / np.full(..., dtype int64)) that was
+    handed to the extension's lookup_id as (ra, dec, out) on the way - except on a path on which ra.size is known to be 0 (a fast path
+    for no positions: there the extension's loop would not run and the array has no elements to fill)"""
+    cfg = rules.cfg_of(fi)
+    view = cfg.view()
+    RIN, _ = view.reaching_defs()
+    rets = rules.return_nodes(cfg)
+    if not rets:
+        return False, " -- no return statement"
+    # dec.size stands for ra.size once the size check has been passed: the function raises for unequal sizes (size_checked) and every
+    # test that controls a raise has been evaluated before the return
+    rbranches = [b for x in rules.raise_nodes(cfg) for b, lab in view.controlling_branches(x) if b.kind == "branch"]
+
+    def alloc_of(e):
+        """size expression of a fresh int64 allocation, else None"""
+        if isinstance(e, ast.Call) and call_name(e) in ("zeros", "empty", "ones", "full") and e.args:
+            dt = kwarg(e, "dtype")
+            if dt is None and call_name(e) != "full" and len(e.args) >= 2:
+                dt = e.args[1]
+            if dt is not None and (const_value(dt) in ("i8", "int64", "<i8", "=i8") or norm(dt) in ("np.int64", "numpy.int64")):
+                return e.args[0]
+        return None
+
+    def def_of(name, at):
+        ds = RIN.get(at.id, {}).get(name, set())
+        if len(ds) != 1:
+            return None
+        dn = cfg.node(next(iter(ds)))
+        a = getattr(dn, "ast", None)
+        if isinstance(a, ast.Assign) and len(a.targets) == 1 and isinstance(a.targets[0], ast.Name) and a.targets[0].id == name:
+            return dn
+        return None
+    calls = [(n, c) for n, c in rules.calls_named(cfg, "lookup_id")]
+    verdicts, notes = [], []
+    for r in rets:
+        v = getattr(r.ast, "value", None)
+        tests = [(b.ast.test, lab) for b, lab in view.controlling_branches(r) if b.kind == "branch" and isinstance(getattr(b.ast, "test", None), ast.AST)]
+        checked = size_checked and bool(rbranches) and all(view.dominates(b, r) for b in rbranches)
+        empty = any(_emptiness(t, lab, ("ra", "dec") if checked else ("ra",)) for t, lab in tests)
+        dn = None
+        if isinstance(v, ast.Name):
+            dn = def_of(v.id, r)
+            size = alloc_of(dn.ast.value) if dn is not None else None
+        else:
+            size = alloc_of(v) if v is not None else None
+        if size is None:
+            verdicts.append(None if v is not None and not isinstance(v, ast.Constant) else False)
+            notes.append("line %s: the value returned is not recognised as a new int64 array" % getattr(r.ast, "lineno", "?"))
+            continue
+        sized = norm(size) in ("ra.size", "len(ra)") or (checked and norm(size) in ("dec.size", "len(dec)")) or (empty and const_value(size) == 0)
+        if not sized:
+            verdicts.append(False if isinstance(size, ast.Constant) or norm(size).endswith(".size") else None)
+            notes.append("line %s: the array returned has %s elements" % (getattr(r.ast, "lineno", "?"), norm(size)))
+            continue
+        if empty:
+            verdicts.append(True)
+            continue
+        # the extension call fills this very array on every path to the return
+        filled = False
+        for cn, c in calls:
+            a = [norm(x) for x in c.args]
+            if dn is not None and len(a) == 3 and a[:2] == ["ra", "dec"] and a[2] == v.id and view.dominates(cn, r) \
+                    and RIN.get(cn.id, {}).get(v.id, set()) == {dn.id}:
+                filled = True
+        if not filled:
+            wrong = [norm(c)[:60] for cn, c in calls if view.dominates(cn, r) and len(c.args) == 3 and [norm(x) for x in c.args][:2] != ["ra", "dec"]]
+            verdicts.append(False if (wrong or not calls) else None)
+            notes.append("line %s: the array returned is not filled by lookup_id(ra, dec, <that array>) on every path%s"
+                         % (getattr(r.ast, "lineno", "?"), "" if not wrong else " (found %s)" % wrong))
+            continue
+        verdicts.append(True)
+    ok = False if False in verdicts else (None if None in verdicts else True)
+    return ok, ("" if not notes else " -- " + "; ".join(notes[:3]))
 
 
 def cos_factor(decl, rhs, var):
@@ -325,7 +420,7 @@ def bincount_c(chk, decl, fs=None):
     cn, cptr, _, csub = incs[0]
     cdef = f.defs_at(cn, cptr)
     if csub is None:
-        ar = array_read(cdef[0][1]) if len(cdef) == 1 else None
+        ar = f.aread(cdef[0][1]) if len(cdef) == 1 else None
     else:
         # cells = PyArray_DATA(array): element `bin` of that array (valid for the contiguous array the function has just allocated, which
         # the next rule instance demands)
@@ -420,13 +515,14 @@ def bincount_c(chk, decl, fs=None):
         roles = []
         for a in args[:4]:
             vd = f.defs_at(dd[0][0], render(a))
-            rd = [array_read(r) for _, r in vd]
+            rd = [f.aread(r) for _, r in vd]
             roles.append(rd[0] if len(rd) == 1 else None)
         lp, i1 = _outer_loop(f, p_ra1)
         ok1 = roles[:2] == [(("param", p_ra1), i1), (("param", p_dec1), i1)]
         ok2 = all(r is not None for r in roles[2:]) and roles[2][0] == ("param", p_ra2) and roles[3][0] == ("param", p_dec2) and roles[2][1] == roles[3][1]
         i2 = roles[2][1] if ok2 else None
-        chk.ob("R13.3", "cbincount::distance-roles", bool(ok1 and ok2), f.w(dd[0][0]), "dis = gcirc(ra1[i1], dec1[i1], ra2[i2], dec2[i2], degrees) (found %s)" % roles)
+        # a coordinate whose definition is not recognised as an element read is not judged; a recognised read of another array / element is wrong
+        chk.ob("R13.3", "cbincount::distance-roles", None if any(r is None for r in roles[:4]) else bool(ok1 and ok2), f.w(dd[0][0]), "dis = gcirc(ra1[i1], dec1[i1], ra2[i2], dec2[i2], degrees) (found %s)" % roles)
         degarg = render(args[4])
         # units: degrees iff no scale; cap in the same unit
         dg = [(render(r), f.tests_over(n)) for n in cfg.nodes for v, r in node_defs(n) if v == degarg]
@@ -434,7 +530,7 @@ def bincount_c(chk, decl, fs=None):
         chk.ob("R13.3", "cbincount::degrees-iff-no-scale", okdeg, f.where, "separations are in degrees exactly when no scale array is given, else in radians (%s)" % dg)
         # member index from reverse indices
         i2d = f.defs_at(dd[0][0], i2) if i2 else []
-        ar2 = array_read(i2d[0][1]) if len(i2d) == 1 else None
+        ar2 = f.aread(i2d[0][1]) if len(i2d) == 1 else None
         okr = ar2 is not None and ar2[0] == ("param", p_rev)
         idxv = ar2[1] if okr else None
         lo = hi = None
@@ -453,18 +549,22 @@ def bincount_c(chk, decl, fs=None):
             e = strip(idd[0][1]) if okr else {}
             okr = okr and e.get("kind") == "BinaryOperator" and e.get("opcode") == "+"
             if okr:
-                lo, il = render(e["inner"][0]), render(e["inner"][1])
+                # slot = lo + t or t + lo (integer addition commutes), t the counter of the enclosing loop
                 lpn = f.loops_over(i2d[0][0])
-                okr = bool(lpn) and render(lpn[0].c["inner"][0]) == il
+                lc = lpn[0].c if lpn and isinstance(lpn[0].c, dict) and lpn[0].c.get("kind") == "BinaryOperator" and lpn[0].c.get("opcode") == "<" else None
+                lvar = render(lc["inner"][0]) if lc else None
+                ea, eb = render(e["inner"][0]), render(e["inner"][1])
+                lo, il = (ea, eb) if eb == lvar else (eb, ea)
+                okr = lvar is not None and il == lvar and lo != lvar
                 cnt = render(lpn[0].c["inner"][1]) if okr else None
                 cd = f.defs_at(lpn[0], cnt) if okr else []
                 okr = okr and len(cd) == 1 and strip(cd[0][1]).get("opcode") == "-" and render(strip(cd[0][1])["inner"][1]) == lo
                 hi = render(strip(cd[0][1])["inner"][0]) if okr else None
         if okr:
             lod, hid = f.defs_at(i2d[0][0], lo), f.defs_at(i2d[0][0], hi)
-            a_lo = array_read(lod[0][1]) if len(lod) == 1 else None
-            a_hi = array_read(hid[0][1]) if len(hid) == 1 else None
-            okr = a_lo is not None and a_hi is not None and a_lo[0] == a_hi[0] == ("param", p_rev) and a_hi[1].replace(" ", "") in ("(%s+1)" % a_lo[1], "%s+1" % a_lo[1])
+            a_lo = f.aread(lod[0][1]) if len(lod) == 1 else None
+            a_hi = f.aread(hid[0][1]) if len(hid) == 1 else None
+            okr = a_lo is not None and a_hi is not None and a_lo[0] == a_hi[0] == ("param", p_rev) and a_hi[1].replace(" ", "") in ("(%s+1)" % a_lo[1], "%s+1" % a_lo[1], "(1+%s)" % a_lo[1], "1+%s" % a_lo[1])
             kvar = a_lo[1] if okr else None
             kd = f.defs_at(lod[0][0], kvar) if okr else []
             okk = len(kd) == 1 and strip(kd[0][1]).get("opcode") == "-" and render(strip(kd[0][1])["inner"][1]) == "minid"
@@ -521,7 +621,7 @@ def bincount_c(chk, decl, fs=None):
     ok = len(md) == 1 and render(md[0]).replace(" ", "") == "(%s/scale)" % p_rmax
     chk.ob("R13.3", "cbincount::maxangle", ok, f.where, "maxangle = rmax/scale")
     # scale provenance
-    sd = [(array_read(r), f.tests_over(n), n) for n in cfg.nodes for v, r in node_defs(n) if v == "scale" and array_read(r)]
+    sd = [(f.aread(r), f.tests_over(n), n) for n in cfg.nodes for v, r in node_defs(n) if v == "scale" and f.aread(r)]
     lp, i1 = _outer_loop(f, p_ra1)
     kinds = set()
     paired = True
@@ -570,7 +670,7 @@ def _outer_loop(f, p_ra):
         c = lp.c
         if isinstance(c, dict) and c.get("kind") == "BinaryOperator" and c.get("opcode") == "<":
             bd = f.defs_at(lp, render(c["inner"][1]))
-            if bd and all("PyArray_API[158]" in render(r) and ref_desc_in(r) == ("param", p_ra) for _, r in bd):
+            if bd and all("PyArray_API[158]" in render(r) and ref_desc_in(r, f.alias) == ("param", p_ra) for _, r in bd):
                 return lp, render(c["inner"][0])
     raise AnalysisError("loop over the first point set not found")
 
@@ -584,10 +684,9 @@ def bincount_py(chk, repo, cdecl):
         stride_rule(chk, "R13.4", "cbincount", Fn(cdecl), fi, {cps0[3]: "ra1", cps0[4]: "dec1", cps0[5]: "ra2", cps0[6]: "dec2"})
     for n, ok in _norm_f8(fi, ["ra1", "dec1", "ra2", "dec2"]).items():
         chk.ob("R13.4", "HTM.bincount::%s-becomes-fresh-float64-1d" % n, ok, fi.where(), "`%s = np.atleast_1d(%s).astype('f8')`" % (n, n))
-    rc = rules.raise_condition(fi)
-    want = rules.bool_term(ast.parse("ra1.size != dec1.size or (scale is not None and scale.size != 1 and scale.size != ra1.size) or "
-                                     "(htmid2 is not None and htmid2.size != ra2.size)", mode="eval").body)
-    chk.ob("R13.4", "HTM.bincount::size-checks", rules.bool_implies(want, rc), fi.where(), "coordinate, scale and id array sizes are checked (raises when: %s)" % rc)
+    oksz, rc = size_check_verdict(fi, "ra1.size != dec1.size or (scale is not None and scale.size != 1 and scale.size != ra1.size) or "
+                                      "(htmid2 is not None and htmid2.size != ra2.size)")
+    chk.ob("R13.4", "HTM.bincount::size-checks", oksz, fi.where(), "coordinate, scale and id array sizes are checked (raises when: %s)" % rc)
     call = [c for c in walk_no_nested(fi.node) if isinstance(c, ast.Call) and call_name(c) == "cbincount"]
     cps = cfront.params_of(cdecl)
     want = ["rmin", "rmax", "nbin", "ra1", "dec1", "ra2", "dec2", "htmrev2", None, "scale", None]
